@@ -111,6 +111,8 @@ class SimDevice:
             if self.exit_raises is not None:
                 raise self.exit_raises
             return resp([CLA, cmd])
+        if 0xA0 <= cmd <= 0xA5:
+            return self.handle_ui(cmd, data)      # SGX management opcodes are served in every mode
         if self.mode == MODE_SIGNER:
             return self.handle_signer(cmd, data)
         if self.mode == MODE_UI_HEARTBEAT:
